@@ -84,6 +84,12 @@ def systems(tier):
     for typ, st in (("RING5", "RING5#0-S#3"), ("RING6", "RING6#0-S#4"), ("RING4", "RING4-S#2")):
         out.append(dict(types=[typ], molecules=[(typ, 1)], box=BOX, grid=GRID, cyc=True, bundle="axis+face18",
                         kwargs=dict(cycles=[typ], cycle_tol=0.3, nrewind=3, maxiter=4, start=[st])))
+    # restraints on chains / rings whose first two residues are supplied as centres (-mc)
+    pre = dict(kind="mc", atoms=[(1, "S", "a"), (2, "S", "a")], coords=[(1.0, 1.0, 1.0), (1.5, 1.0, 1.0)], box=BOX)
+    out.append(dict(types=["CH6"], molecules=[("CH6", 1)], box=BOX, grid=GRID, dist=[(0, 5, 1.5, 0.3)], kwargs=dict(nrewind=3, maxiter=4), input=pre))
+    out.append(dict(types=["CH6"], molecules=[("CH6", 1)], box=BOX, grid=GRID, dist=[(1, 5, 1.5, 0.3)], kwargs=dict(nrewind=3, maxiter=4), input=pre))
+    out.append(dict(types=["RING5"], molecules=[("RING5", 1)], box=BOX, grid=GRID, cyc=True, bundle="axis+face18",
+                    kwargs=dict(cycles=["RING5"], cycle_tol=0.3, nrewind=3, maxiter=4), input=pre))
     for typ in ("LASSO", "LASSO0"):
         out.append(dict(types=[typ], molecules=[(typ, 1)], box=BOX, grid=GRID, cyc=True, bundle="axis+face18", kwargs=dict(cycles=[typ], cycle_tol=0.3, nrewind=3, maxiter=4)))
     for typ in ("CH5", "CH6"):
